@@ -185,6 +185,8 @@ class SimFS:
     # -- direct (test-side) access, not traced
     def put(self, path, data: bytes):
         self.files[path] = bytearray(data)
+        clk = self.__dict__.setdefault("_put_clock", {})
+        clk[path] = clk.get(path, 0) + 1
 
     def get(self, path):
         d = self.files.get(path)
@@ -267,6 +269,14 @@ class SimFS:
         self.events.append(("exists", path))
         return path in self.files or path in self.dirs
 
+    def _mtime_of(self, path):
+        """derived from the event trace: 1 s base + 1 ms per modifying event on that path"""
+        n = 0
+        for e in self.events:
+            if e[1] == path and e[0] in ("open_w", "open_x", "open_a", "write", "trunc", "renamed_onto"):
+                n += 1
+        return 10 ** 9 + n * 10 ** 6 + self.__dict__.get("_put_clock", {}).get(path, 0) * 10 ** 3
+
     def _ino(self, path):
         inos = self.__dict__.setdefault("_inos", {})
         if path not in inos:
@@ -278,7 +288,12 @@ class SimFS:
         path = path.rstrip("/") or "/"
         self.events.append(("stat", path))
         if path in self.files:
-            return os.stat_result((0o100644, self._ino(path), 7, 1, 0, 0, len(self.files[path]), 0, 0, 0))
+            # mtime: a logical clock advanced by every modification of that file (caches keyed by
+            # (mtime, size) must see a rewritten file as changed, and an untouched one as unchanged)
+            ns = self._mtime_of(path)
+            sec = ns // 10 ** 9
+            return os.stat_result((0o100644, self._ino(path), 7, 1, 0, 0, len(self.files[path]), sec, sec, sec,
+                                   ns / 1e9, ns / 1e9, ns / 1e9, ns, ns, ns))
         if path in self.dirs:
             return os.stat_result((0o040755, self._ino(path), 7, 2, 0, 0, 4096, 0, 0, 0))
         raise FileNotFoundError(errno.ENOENT, "No such file or directory", path)
